@@ -80,7 +80,7 @@ def run(ctx):
     grid = [(N, K) for N in (4, 5, 6, 7) for K in (2, 3)] if ctx.quick else \
            [(N, K) for N in range(4, 11) for K in (2, 3, 4) if not (N > 8 and K == 4)]
     for N, K in grid:
-        for _ in range(2 if ctx.quick else 4):
+        for _ in range(2 if ctx.quick else 12):
             w = [rng.randint(1, 6) for _ in range(K)]
             p = [Fraction(x, sum(w)) for x in w]
             e_pc = e_pc2 = e_var = Fraction(0)
@@ -110,7 +110,7 @@ def run(ctx):
                               dict(N=N, K=K, p=[str(q) for q in p], E_var=str(e_var), Var=str(e_pc2 - e_pc ** 2)),
                               site='stats.varpc_n')
     # two-sample estimator, exact enumeration on the implementation
-    for N1, N2, K in ([(2, 3, 2), (3, 2, 3)] if ctx.quick else [(2, 3, 2), (3, 2, 3), (4, 4, 3), (1, 5, 3), (5, 1, 2)]):
+    for N1, N2, K in ([(2, 3, 2), (3, 2, 3)] if ctx.quick else [(2, 3, 2), (3, 2, 3), (4, 4, 3), (1, 5, 3), (5, 1, 2), (3, 6, 3), (6, 3, 2), (2, 2, 4), (5, 5, 2)]):
         w1 = [rng.randint(1, 5) for _ in range(K)]
         w2 = [rng.randint(1, 5) for _ in range(K)]
         p = [Fraction(x, sum(w1)) for x in w1]
